@@ -1056,6 +1056,31 @@ func (r *efRun) exit(p *PState, ins ssa.Instruction) {
 					e.changed[r.fn] = true
 				}
 			}
+			// `if err == io.EOF { return io.EOF }`: the source's io.EOF is handed on under its own name; it
+			// stays the raw io.EOF of that origin for whoever receives it
+			if g, isG := v.(*ssa.Global); isG && isEOF(g) {
+				for _, t := range s.eof {
+					if tg := p.EqGlobal(t.v); tg != nil && isEOF(tg) {
+						// (where this function is the admitted interpreter of the origin, the io.EOF it
+						// returns is its own, verified one)
+						keep := oset{}
+						for site, inf := range t.orig {
+							admitted := false
+							for _, wl := range eofWhitelist {
+								if wl.origin == e.originKey[site] && wl.sink == FnName(r.fn) {
+									admitted = true
+								}
+							}
+							if !admitted {
+								keep[site] = inf
+							}
+						}
+						if len(keep) > 0 && e.summary[r.fn][i].addAll(keep, true) {
+							e.changed[r.fn] = true
+						}
+					}
+				}
+			}
 			s.consumed[v] = true
 		}
 	}
@@ -1160,6 +1185,9 @@ func (r *efRun) exit(p *PState, ins ssa.Instruction) {
 		}
 		if retErr != nil {
 			rv := p.Resolve(retErr)
+			if g, isG := rv.(*ssa.Global); isG && isEOF(g) {
+				continue // handed on as io.EOF: judged where it is received (summary above)
+			}
 			if g, isG := rv.(*ssa.Global); isG && !isEOF(g) {
 				ok = true
 			}
